@@ -509,11 +509,27 @@ type derivedCase struct {
 	Z    [2]float64  `json:"z"`
 	X    *gen.Xform3 `json:"x,omitempty"`
 	Pts  []kit.V3    `json:"pts"`
+	// 2D similarity for the 2D twins: rotate by T2[0], scale by T2[1], then move by (T2[2], T2[3])
+	T2 [4]float64 `json:"t2,omitempty"`
 }
 
 func genDerived(t *rapid.T) derivedCase {
-	c := derivedCase{Kind: rapid.SampledFrom([]string{"profile", "profile", "collider", "transform"}).Draw(t, "kind")}
+	c := derivedCase{Kind: rapid.SampledFrom([]string{"profile", "profile", "collider", "transform", "xcollider", "collider2", "transform2", "xcollider2"}).Draw(t, "kind")}
 	switch c.Kind {
+	case "collider2", "transform2", "xcollider2":
+		s := gen.Shape2Gen(t, gen.AllKinds2, 1, 5, "s2")
+		c.S2 = &s
+		c.T2 = [4]float64{gen.F(t, -4, 4, "angle"), gen.LogF(t, 0.2, 5, "scale"), gen.F(t, -3, 3, "tx"), gen.F(t, -3, 3, "ty")}
+		for i := 0; i < 8; i++ {
+			q := s.Centre().Add(gen.Vec2(t, 1.6*s.Size(), "p"))
+			c.Pts = append(c.Pts, kit.V3{q[0], q[1], 0})
+		}
+	case "xcollider":
+		s := gen.Shape3Gen(t, gen.AllKinds3, 1, 5, "s3")
+		c.S3 = &s
+		x := gen.Xform3Gen(t, true, "x")
+		c.X = &x
+		c.Pts = genPoints3(t, s, 6)
 	case "profile":
 		s := gen.Shape2Gen(t, gen.AllKinds2, 1, 20, "s2")
 		c.S2 = &s
@@ -581,6 +597,55 @@ func checkDerived(c derivedCase, o *kit.Obs) error {
 			if !onCap && !onSide {
 				return fmt.Errorf("ProfilePointSDF(%+v, z=%v).PointSDF(%v) returned %v which is not on the boundary", s2, c.Z, p, pt)
 			}
+		}
+	case "collider2", "transform2", "xcollider2":
+		s := *c.S2
+		k := c.T2[1]
+		tr := model2d.JoinedTransform{model2d.Rotation(c.T2[0]), &model2d.Scale{Scale: k}, &model2d.Translate{Offset: model2d.XY(c.T2[2], c.T2[3])}}
+		cs, sn := math.Cos(c.T2[0]), math.Sin(c.T2[0])
+		image := func(p kit.V3) model2d.Coord {
+			return model2d.XY(k*(cs*p[0]-sn*p[1])+c.T2[2], k*(sn*p[0]+cs*p[1])+c.T2[3])
+		}
+		var sdf model2d.SDF
+		rel := 1e-6
+		switch c.Kind {
+		case "collider2":
+			sdf, k = model2d.ColliderToSDF(s.Build(), 0), 1
+			image = func(p kit.V3) model2d.Coord { return model2d.XY(p[0], p[1]) }
+		case "transform2":
+			sdf, rel = model2d.TransformSDF(tr, s.Build()), 1e-9
+		default:
+			sdf = model2d.ColliderToSDF(model2d.TransformCollider(tr, s.Build()), 0)
+		}
+		for _, p := range c.Pts {
+			ref := s.RefSDF(kit.V2{p[0], p[1]})
+			if a := math.Abs(ref.SDF); rel > 1e-8 && (a < 1e-5 || a > 1e5) {
+				continue
+			}
+			q := image(p)
+			got := sdf.SDF(q)
+			tol := rel*k*math.Abs(ref.SDF) + 1e-9*k*(s.Size()+p.Norm()+q.Norm()/k)
+			if math.Abs(got-k*ref.SDF) > tol {
+				return fmt.Errorf("2D %s over %s %+v with rotation %g, scale %g, offset (%g, %g): SDF(image of %v) = %.12g, want %g x reference %.12g", c.Kind, s.Kind, s, c.T2[0], c.T2[1], c.T2[2], c.T2[3], p, got, k, ref.SDF)
+			}
+			o.NonTrivial()
+		}
+	case "xcollider":
+		s, x := *c.S3, *c.X
+		tr := x.Build().(model3d.DistTransform)
+		sdf := model3d.ColliderToSDF(model3d.TransformCollider(tr, s.Build()), 0)
+		f := x.DistFactor()
+		for _, p := range c.Pts {
+			ref := s.RefSDF(p)
+			if a := math.Abs(ref.SDF); a < 1e-5 || a > 1e5 || coneNearAxis(s, p) {
+				continue
+			}
+			q := x.RefApply(p)
+			got := sdf.SDF(m3.C3(q))
+			if math.Abs(got-f*ref.SDF) > 1e-6*f*math.Abs(ref.SDF)+1e-9*f*(s.Size()+p.Dist(s.Centre())+q.Norm()/f+p.Norm()) {
+				return fmt.Errorf("ColliderToSDF(TransformCollider(%+v, %s %+v)).SDF(image of %v) = %.12g, want factor %g x %.12g", x, s.Kind, s, p, got, f, ref.SDF)
+			}
+			o.NonTrivial()
 		}
 	case "collider":
 		s := *c.S3
